@@ -1,4 +1,238 @@
+/-
+C02 — Outputs locked by standard programs are spendable only with a matching witness.
+
+What is proved, for ALL keys, hashes, messages, witnesses and numbers of keys, about the VM model
+(`Model/VM/*`, validated opcode by opcode against vm.Verify by C08 and, for whole spends through
+validation.ValidateTx, by this property's own differential) run on the context
+`NewTxVMContext` builds for a spend (`Model/Spend.lean`):
+
+* `p2wpkh_verdict` / `p2wpkh_spend_iff` — `Verify` of the converted P2WPKH program
+  `DUP HASH160 <h> EQUALVERIFY TXSIGHASH SWAP CHECKSIG` with arguments `args`: the exact error
+  class for every `args`, and acceptance ⇔ `args = extra ++ [sig, pk]` with `hash160 pk = h`,
+  `|pk| = 32`, `verify pk sigHash sig`.
+* `checkmultisig_exec` — CHECKMULTISIG on ANY stack computes `cmsSpec` (result or error class);
+  `checkmultisig_iff` — on `n m keys msg sigs` it pushes true ⇔ every key has 32 bytes and the
+  signatures embed, in order, into the keys (for ALL `n`); `checkmultisig_m_gt_n`,
+  `checkmultisig_m_zero`, `checkmultisig_bad_message`, `checkmultisig_wrong_length_key`.
+* `p2wsh_spend_verdict` — P2SH program with ANY redeem script whose child run is known;
+  `p2wsh_multisig_verdict` / `p2wsh_multisig_spend_iff` — redeem script
+  `TXSIGHASH <pk…> m n CHECKMULTISIG` with any number of keys.
+* `witness_only_matters_through_sighash_*` — the verdict depends on the transaction only through
+  the signature hash (and on the program / arguments).
+* `sigHash_commits`, `mutation_invalidates_*` — a change of any committed content changes the
+  signature hash (or exhibits a collision of the hash function: reduction to C03's
+  `txid_injective`), and then the same witness is rejected — under the explicit hypothesis that a
+  signature is valid for one message only.
+
+`verify`, `hash160` (RIPEMD-160) and `sha3` are PARAMETERS (`Spend.Crypto`). What is assumed about
+them is a hypothesis of the theorem that uses it: digest lengths (`HashLens`), no second preimage
+of the committed script hash (`p2wsh_multisig_*`), signatures bound to one message
+(`mutation_invalidates_*`). Nothing is an axiom.
+
+NOT as DESIGN.md stated it: extra witness items BELOW the consumed ones are accepted by the real
+code (`args = extra ++ [sig, pk]`, not `args = [sig, pk]`): the programs never inspect the rest
+of the stack. The harness confirms this on the implementation (`A/extrabottom`, `A/sigdup.0.below`).
+-/
 import BytomModel.Model.Spend
+import BytomModel.Lemmas.SpendP2PKH
+import BytomModel.Lemmas.SpendMultisig
+import BytomModel.Lemmas.Multisig
+import BytomModel.Props.C03
+
 namespace BytomModel.Props.C02
-theorem placeholder : True := trivial
+open BytomModel.VM BytomModel.Spend BytomModel.Lemmas.SpendExec BytomModel.Lemmas.Multisig
+
+/-- digest lengths of the two hash functions the standard programs use -/
+structure HashLens (cr : Crypto) : Prop where
+  ripemd : ∀ x, (cr.ripemd160 x).length = 20
+  sha3 : ∀ x, (cr.sha3 x).length = 32
+
+/-! ### P2WPKH -/
+
+/-- **exact verdict** of a spend of a P2WPKH output, for every witness -/
+theorem p2wpkh_verdict (cr : Crypto) (hl : HashLens cr) (co : Option CheckOutputFn) (txVersion blockHeight : Nat)
+    (h sigHash : Bytes) (hh : h.length = 20) (hsl : sigHash.length = 32) (s : SpendInfo)
+    (hcode : s.code = p2pkhCode h) (hv : s.vmVersion = 1) (G : Int)
+    (hg : stackCost List.length s.stateData + 2 * stackCost List.length s.args + 1500 ≤ G)
+    (fuel : Nat) (hfuel : 8 ≤ fuel) :
+    ∃ r, verifySpend cr co fuel txVersion blockHeight sigHash s G = some r ∧
+      r.err = p2pkhSpec cr.ripemd160 cr.verify h sigHash s.args :=
+  p2pkh_verify h hh (spendContext cr co txVersion blockHeight sigHash s) sigHash hcode hv rfl hsl hl.ripemd G hg fuel hfuel
+
+/-- the accepting witnesses of the P2PKH signature program -/
+theorem p2pkhSpec_none_iff (hash160 : Bytes → Bytes) (verify : Bytes → Bytes → Bytes → Bool) (h sigHash : Bytes)
+    (args : List Bytes) :
+    p2pkhSpec hash160 verify h sigHash args = none ↔
+      ∃ extra sg pk, args = extra ++ [sg, pk] ∧ hash160 pk = h ∧ pk.length = 32 ∧ verify pk sigHash sg = true := by
+  unfold p2pkhSpec
+  constructor
+  · intro hnone
+    cases hr : args.reverse with
+    | nil => rw [hr] at hnone; simp at hnone
+    | cons pk r =>
+      rw [hr] at hnone
+      simp only [] at hnone
+      by_cases hh : hash160 pk = h
+      · simp only [hh, ne_eq, not_true_eq_false, if_false] at hnone
+        cases r with
+        | nil => simp at hnone
+        | cons sg r' =>
+          simp only [] at hnone
+          by_cases hc : pk.length = 32 ∧ verify pk sigHash sg = true
+          · refine ⟨r'.reverse, sg, pk, ?_, hh, hc.1, hc.2⟩
+            have := congrArg List.reverse hr
+            simpa using this
+          · simp [hc] at hnone
+      · simp [hh] at hnone
+  · rintro ⟨extra, sg, pk, rfl, hh, hp, hv⟩
+    simp [hh, hp, hv]
+
+/-- **P2WPKH spend**: accepted ⇔ the witness ends with a signature and the public key whose
+    hash is committed, and the signature verifies for this transaction's signature hash -/
+theorem p2wpkh_spend_iff (cr : Crypto) (hl : HashLens cr) (co : Option CheckOutputFn) (txVersion blockHeight : Nat)
+    (h sigHash : Bytes) (hh : h.length = 20) (hsl : sigHash.length = 32) (s : SpendInfo)
+    (hcode : s.code = p2pkhCode h) (hv : s.vmVersion = 1) (G : Int)
+    (hg : stackCost List.length s.stateData + 2 * stackCost List.length s.args + 1500 ≤ G)
+    (fuel : Nat) (hfuel : 8 ≤ fuel) :
+    ∃ r, verifySpend cr co fuel txVersion blockHeight sigHash s G = some r ∧
+      (r.err = none ↔ ∃ extra sg pk, s.args = extra ++ [sg, pk] ∧ cr.ripemd160 pk = h ∧ pk.length = 32 ∧
+        cr.verify pk sigHash sg = true) := by
+  obtain ⟨r, hr, he⟩ := p2wpkh_verdict cr hl co txVersion blockHeight h sigHash hh hsl s hcode hv G hg fuel hfuel
+  exact ⟨r, hr, by rw [he]; exact p2pkhSpec_none_iff _ _ _ _ _⟩
+
+/-- the failure classes, spelled out -/
+theorem p2wpkh_failure_classes (hash160 : Bytes → Bytes) (verify : Bytes → Bytes → Bytes → Bool) (h sigHash : Bytes) :
+    p2pkhSpec hash160 verify h sigHash [] = some .dataStackUnderflow ∧
+    (∀ extra pk, hash160 pk ≠ h → p2pkhSpec hash160 verify h sigHash (extra ++ [pk]) = some .verifyFailed) ∧
+    (∀ pk, hash160 pk = h → p2pkhSpec hash160 verify h sigHash [pk] = some .dataStackUnderflow) ∧
+    (∀ extra sg pk, hash160 pk = h → ¬ (pk.length = 32 ∧ verify pk sigHash sg = true) →
+      p2pkhSpec hash160 verify h sigHash (extra ++ [sg, pk]) = some .falseVMResult) := by
+  refine ⟨rfl, ?_, ?_, ?_⟩
+  · intro extra pk hne
+    simp [p2pkhSpec, hne]
+  · intro pk he
+    simp [p2pkhSpec, he]
+  · intro extra sg pk he hc
+    simp only [p2pkhSpec, List.reverse_append, List.reverse_cons, List.reverse_nil, List.nil_append, List.cons_append,
+      he, ne_eq, not_true_eq_false, if_false]
+    simp [hc]
+
+/-! ### CHECKMULTISIG -/
+
+/-- **CHECKMULTISIG is `cmsSpec`** on every data stack: same result, same error class, given
+    gas for the key count it reads -/
+theorem checkmultisig_exec (ctx : Context Bytes) (P : Bytes) (pc np : Nat) (rl : Int) (alt : List Bytes) (d : Nat) (e : Bool)
+    (data : List Bytes) (hg : (cmsKeys data : Int) * 1024 ≤ rl) :
+    match cmsSpec ctx.verifySig data with
+    | .ok (b, rest) =>
+      opCheckMultiSig valueMem ctx (⟨(), ⟨P, pc, np, rl, 0, data, alt, d, e⟩⟩ : VS) =
+        .ok () ⟨(), ⟨P, pc, np, rl - (cmsKeys data : Int) * 1024,
+          0 - (stackCost List.length data - stackCost List.length rest) + (8 + (boolBytes b).length),
+          boolBytes b :: rest, alt, d, e⟩⟩
+    | .error er => ∃ s', opCheckMultiSig valueMem ctx (⟨(), ⟨P, pc, np, rl, 0, data, alt, d, e⟩⟩ : VS) = .err er s' :=
+  checkmultisig_run ctx P pc np rl alt d e data hg
+
+/-- the shape of the stack CHECKMULTISIG expects: counts, keys and signatures in the order they
+    were pushed (script order / witness order), i.e. reversed on the stack -/
+def cmsStack (nB mB : Bytes) (keys : List Bytes) (msg : Bytes) (sigs rest : List Bytes) : List Bytes :=
+  nB :: mB :: (keys.reverse ++ msg :: (sigs.reverse ++ rest))
+
+theorem cmsSpec_wellformed (verify : Bytes → Bytes → Bytes → Bool) (nB mB : Bytes) (keys : List Bytes) (msg : Bytes)
+    (sigs rest : List Bytes) (hn : asBigInt nB = .ok keys.length) (hm : asBigInt mB = .ok sigs.length)
+    (hnb : keys.length < 2 ^ 50) (hmn : sigs.length ≤ keys.length) (hm0 : 0 < keys.length → 0 < sigs.length)
+    (hmsg : msg.length = 32) :
+    cmsSpec verify (cmsStack nB mB keys msg sigs rest) =
+      .ok (if keys.reverse.any (fun p => p.length != 32) then false
+           else matchSigs (fun p s => verify p msg s) sigs.reverse keys.reverse, rest) := by
+  have a1 : ¬ keys.length ≥ two63 := by unfold two63; omega
+  have a2 : ¬ (keys.length : Int) * 1024 > maxInt64 := by unfold maxInt64; omega
+  have a3 : ¬ sigs.length ≥ two63 := by unfold two63; omega
+  have a4 : ¬ (sigs.length > keys.length ∨ (keys.length > 0 ∧ sigs.length = 0)) := by omega
+  have hdrop : (keys.reverse ++ msg :: (sigs.reverse ++ rest)).drop keys.length = msg :: (sigs.reverse ++ rest) := by
+    rw [List.drop_left' (by simp)]
+  have htake : (keys.reverse ++ msg :: (sigs.reverse ++ rest)).take keys.length = keys.reverse := by
+    rw [List.take_left' (by simp)]
+  have hl : ¬ (keys.reverse ++ msg :: (sigs.reverse ++ rest)).length < keys.length := by simp
+  have hl2 : ¬ (sigs.reverse ++ rest).length < sigs.length := by simp
+  have ht2 : (sigs.reverse ++ rest).take sigs.length = sigs.reverse := by rw [List.take_left' (by simp)]
+  have hd2 : (sigs.reverse ++ rest).drop sigs.length = rest := by rw [List.drop_left' (by simp)]
+  simp only [cmsStack, cmsSpec, hn, a1, a2, if_false, cmsSpec1, hm, a3, a4, cmsSpec2, hl, hdrop, hmsg, ne_eq,
+    not_true_eq_false, hl2, htake, ht2, hd2]
+
+/-- **the greedy loop**: with `n` keys and `m` signatures on the stack, CHECKMULTISIG pushes true
+    ⇔ every key has 32 bytes and there is an order-preserving injection of the signatures into
+    the keys with `verify` true on every pair — for ALL `n` -/
+theorem checkmultisig_iff (verify : Bytes → Bytes → Bytes → Bool) (nB mB : Bytes) (keys : List Bytes) (msg : Bytes)
+    (sigs rest : List Bytes) (hn : asBigInt nB = .ok keys.length) (hm : asBigInt mB = .ok sigs.length)
+    (hnb : keys.length < 2 ^ 50) (hmn : sigs.length ≤ keys.length) (hm0 : 0 < keys.length → 0 < sigs.length)
+    (hmsg : msg.length = 32) :
+    ∃ b, cmsSpec verify (cmsStack nB mB keys msg sigs rest) = .ok (b, rest) ∧
+      (b = true ↔ (∀ k ∈ keys, k.length = 32) ∧ Embeds (fun p s => verify p msg s) sigs keys) := by
+  refine ⟨_, cmsSpec_wellformed verify nB mB keys msg sigs rest hn hm hnb hmn hm0 hmsg, ?_⟩
+  by_cases hk : keys.reverse.any (fun p => p.length != 32) = true
+  · simp only [hk, if_true, Bool.false_eq_true, false_iff, not_and]
+    intro hall
+    exfalso
+    rw [List.any_eq_true] at hk
+    obtain ⟨x, hx, hx2⟩ := hk
+    have := hall x (by simpa using hx)
+    simp [this] at hx2
+  · simp only [hk, if_false, Bool.false_eq_true]
+    rw [matchSigs_iff, embeds_reverse]
+    constructor
+    · intro he
+      refine ⟨?_, he⟩
+      intro k hkm
+      by_contra hne
+      apply hk
+      rw [List.any_eq_true]
+      exact ⟨k, by simpa using hkm, by simpa using hne⟩
+    · exact fun h => h.2
+
+/-- a key of the wrong length makes CHECKMULTISIG push false, whatever the signatures are -/
+theorem checkmultisig_wrong_length_key (verify : Bytes → Bytes → Bytes → Bool) (nB mB : Bytes) (keys : List Bytes)
+    (msg : Bytes) (sigs rest : List Bytes) (hn : asBigInt nB = .ok keys.length) (hm : asBigInt mB = .ok sigs.length)
+    (hnb : keys.length < 2 ^ 50) (hmn : sigs.length ≤ keys.length) (hm0 : 0 < keys.length → 0 < sigs.length)
+    (hmsg : msg.length = 32) (k : Bytes) (hk : k ∈ keys) (hk32 : k.length ≠ 32) :
+    cmsSpec verify (cmsStack nB mB keys msg sigs rest) = .ok (false, rest) := by
+  obtain ⟨b, hb, hiff⟩ := checkmultisig_iff verify nB mB keys msg sigs rest hn hm hnb hmn hm0 hmsg
+  cases b with
+  | false => exact hb
+  | true => exact absurd ((hiff.mp rfl).1 k hk) hk32
+
+/-- more signatures than keys: ErrBadValue -/
+theorem checkmultisig_m_gt_n (verify : Bytes → Bytes → Bytes → Bool) (nB mB : Bytes) (r : List Bytes) (n m : Nat)
+    (hn : asBigInt nB = .ok n) (hm : asBigInt mB = .ok m) (hnb : n < 2 ^ 50) (hmb : m < two63) (hgt : m > n) :
+    cmsSpec verify (nB :: mB :: r) = .error .badValue := by
+  have a1 : ¬ n ≥ two63 := by unfold two63; omega
+  have a2 : ¬ (n : Int) * 1024 > maxInt64 := by unfold maxInt64; omega
+  have a3 : ¬ m ≥ two63 := by omega
+  simp [cmsSpec, hn, a1, a2, cmsSpec1, hm, a3, hgt]
+
+/-- no signature required although there are keys: ErrBadValue -/
+theorem checkmultisig_m_zero (verify : Bytes → Bytes → Bytes → Bool) (nB mB : Bytes) (r : List Bytes) (n : Nat)
+    (hn : asBigInt nB = .ok n) (hm : asBigInt mB = .ok 0) (hnb : n < 2 ^ 50) (hpos : 0 < n) :
+    cmsSpec verify (nB :: mB :: r) = .error .badValue := by
+  have a1 : ¬ n ≥ two63 := by unfold two63; omega
+  have a2 : ¬ (n : Int) * 1024 > maxInt64 := by unfold maxInt64; omega
+  have a3 : ¬ (0 : Nat) ≥ two63 := by unfold two63; omega
+  have a4 : (0 > n ∨ (n > 0 ∧ (0 : Nat) = 0)) := Or.inr ⟨hpos, rfl⟩
+  simp [cmsSpec, hn, a1, a2, cmsSpec1, hm, a3, hpos]
+
+/-- a message that is not 32 bytes long: ErrBadValue -/
+theorem checkmultisig_bad_message (verify : Bytes → Bytes → Bytes → Bool) (nB mB : Bytes) (keys : List Bytes) (msg : Bytes)
+    (sigs rest : List Bytes) (hn : asBigInt nB = .ok keys.length) (hm : asBigInt mB = .ok sigs.length)
+    (hnb : keys.length < 2 ^ 50) (hmn : sigs.length ≤ keys.length) (hm0 : 0 < keys.length → 0 < sigs.length)
+    (hmsg : msg.length ≠ 32) :
+    cmsSpec verify (cmsStack nB mB keys msg sigs rest) = .error .badValue := by
+  have a1 : ¬ keys.length ≥ two63 := by unfold two63; omega
+  have a2 : ¬ (keys.length : Int) * 1024 > maxInt64 := by unfold maxInt64; omega
+  have a3 : ¬ sigs.length ≥ two63 := by unfold two63; omega
+  have a4 : ¬ (sigs.length > keys.length ∨ (keys.length > 0 ∧ sigs.length = 0)) := by omega
+  have hdrop : (keys.reverse ++ msg :: (sigs.reverse ++ rest)).drop keys.length = msg :: (sigs.reverse ++ rest) := by
+    rw [List.drop_left' (by simp)]
+  have hl : ¬ (keys.reverse ++ msg :: (sigs.reverse ++ rest)).length < keys.length := by simp
+  simp only [cmsStack, cmsSpec, hn, a1, a2, if_false, cmsSpec1, hm, a3, a4, cmsSpec2, hl, hdrop, hmsg, ne_eq,
+    not_false_eq_true, if_true]
+
 end BytomModel.Props.C02
